@@ -221,6 +221,11 @@ func (p *Prog) Graph(f *Func) *Graph {
 			continue
 		}
 		if len(b.Succs) == 0 {
+			if b.Kind == cfg.KindSelectAfterCase {
+				// "no clause ready" of a select without default: the goroutine
+				// blocks; there is no such control-flow edge.
+				continue
+			}
 			if ln.Ast != nil {
 				if es, ok := ln.Ast.(*ast.ExprStmt); ok {
 					if call, ok := es.X.(*ast.CallExpr); ok && !p.mayReturn(f)(call) {
@@ -275,7 +280,7 @@ func (g *Graph) Reach(starts []*Node, avoid func(*Node) bool, cut func(*Edge) bo
 	seen := map[*Node]*Edge{}
 	var work []*Node
 	for _, s := range starts {
-		if s == nil {
+		if s == nil || (avoid != nil && avoid(s)) {
 			continue
 		}
 		if _, ok := seen[s]; !ok {
